@@ -331,6 +331,47 @@ def ob_memo_layered(w, P):
     return cl
 
 
+def ob_memo_zero_expiry(w, P):
+    """the memoizers over the real Cache with an expiry of zero: nothing stays readable, so every call runs the function and
+    returns its result (memoize_stampede passes the zero through to Cache.set; a DjangoCache whose default timeout is 0 does too)"""
+    L = w.L
+    cl = []
+    t = [1000.0]
+
+    def clock():
+        t[0] += 1.0
+        return t[0]
+    w.clock_fn = clock
+    calls = []
+
+    def func(a):
+        calls.append(a)
+        return (a, len(calls))
+    variant = P['variant']
+    if variant == 'stampede':
+        c = L.core.Cache(w.dir)
+        rec = L.recipes
+        rec.random = type('X', (), {'random': staticmethod(lambda: 0.5)})
+        f = rec.memoize_stampede(c, 0, name='f')(func)
+        probe = lambda: c.get(f.__cache_key__(6), default='nothing')
+    else:
+        dc = L.djangocache.DjangoCache(w.dir, {'SHARDS': 1, 'TIMEOUT': 0, 'OPTIONS': {}})
+        f = dc.memoize(name='f')(func)
+        probe = lambda: dc.get(f.__cache_key__(6), 'nothing')
+    rs = []
+    try:
+        for _ in range(3):
+            rs.append(f(6))
+    except Exception as e:
+        if type(e).__name__ == 'HarnessBug':
+            raise
+        rs.append(repr(e))
+    cl.append(('C16,C04', 'with an expiry of zero every call runs the function and returns its result (%r)' % (rs,), rs == [(6, 1), (6, 2), (6, 3)]))
+    cl.append(('C16,C04', 'and nothing stays readable', probe() == 'nothing'))
+    flag('nontrivial')
+    return cl
+
+
 def jobs(tier):
     out = []
     F = {'cache': ['core.Cache.memoize', 'core.args_to_key'], 'fanout': ['core.Cache.memoize'], 'index': ['persistent.Index.memoize', 'core.Cache.memoize'],
@@ -341,6 +382,9 @@ def jobs(tier):
         out.append(dict(id='memo.names.%s' % v, func='ob_memo_names', params=dict(variant=v), tags=['C16'], functions=['core.full_name'] + F[v], weight=3, twin=False))
     for v in ('cache', 'django', 'stampede'):
         out.append(dict(id='memo.layered.%s' % v, func='ob_memo_layered', params=dict(variant=v), tags=['C16'], functions=F[v], weight=3, twin=False))
+    for v in ('stampede', 'django_default_zero'):
+        out.append(dict(id='memo.zero_expiry.%s' % v, func='ob_memo_zero_expiry', params=dict(variant=v), tags=['C16', 'C04'], functions=['recipes.memoize_stampede', 'djangocache.DjangoCache.memoize', 'core.Cache.set'],
+                        weight=3, twin=False))
     out.append(dict(id='memo.stampede.aux_keys', func='ob_memo_aux_keys', params={}, tags=['C16'], functions=F['stampede'], weight=5, twin=False, must_reach=['marker_live']))
     out.append(dict(id='memo.stampede.nothread', func='ob_memo', params=dict(variant='stampede', run_thread=False), tags=['C16'], functions=F['stampede'], weight=5, twin=False))
     return out
